@@ -19,7 +19,11 @@ PROBED = ["C01", "C02", "C03", "C04", "C05", "C06", "C09", "C10", "C13", "C14", 
 
 def _run_probe(pid, cases, seed):
     env = dict(os.environ, PYTHONPATH=REPO_SRC, UJVC_PROBES=pid, UJVC_PROBE_CASES=str(cases), VERIF_SEED=str(seed))
-    p = subprocess.run(["/venv/bin/python", "-c", sysprobe.SCRIPT], env=env, capture_output=True, text=True, timeout=1500)
+    try:
+        p = subprocess.run(["/venv/bin/python", "-c", sysprobe.SCRIPT], env=env, capture_output=True, text=True, timeout=1500 if cases > 2000 else 600)
+    except subprocess.TimeoutExpired as e:
+        out = (e.stdout.decode(errors="replace") if isinstance(e.stdout, bytes) else (e.stdout or ""))[-2000:]
+        return 1, out + "\nVIOLATED C07 the probe did not finish within its time limit: some run hangs"
     return p.returncode, (p.stdout[-2500:] + p.stderr[-1500:])
 
 
@@ -52,6 +56,9 @@ def _engine_stress(ctx):
     thorough = os.environ.get("UJVC_TIER") == "thorough"
     os.environ["UJVC_REPLAY_REPS"] = "6" if thorough else "1"     # quick: one repetition per shape (about 3 s)
     r = engine_replay.replay({})
+    if r.get("rc") not in (0, 1) and not r.get("timed_out"):
+        ctx.unsupported("engine stress harness did not run: " + r["detail"][-600:])
+    ctx.check("bounded/engine-stress:finished-within-its-time-limit(no-hang)", bool(not r.get("timed_out")), info=r["detail"][-1500:], props=["C07"])
     ctx.check("bounded/engine-stress:no-violation-of-C01/C04/C06/C07/C10-observed", bool(not r["reproduced"]), info=r["detail"][-2500:])
     return "ok"
 
@@ -67,4 +74,4 @@ unit("system.engine-stress", props=["C01", "C04", "C06", "C07", "C10"],
      assumptions=["bounded stand-in: quick tier 1 repetition per shape, thorough tier 6"], min_obligations=1, kind="bounded")(_engine_stress)
 
 _generic = sysprobe.replay_for([], 1500)
-REPLAYS = [("system.*", _generic)]
+REPLAYS = [("system.engine-stress*", engine_replay.replay), ("system.*", _generic)]
